@@ -296,22 +296,18 @@ def run(ctx) -> None:
 
     # the pinned calendar is the parsed calendar, field by field (v1 _ver_to_cal_info is positional)
     inc1 = prog.function("v1version.incr")
-    pin_fns = set()
-    for c_, t_ in prog.calls_in(inc1):
-        if t_.kind == "func" and t_.fn is not None and [unparse(x) for x in c_.args] == ["old_vinfo"] and t_.fn.returns is not None and "CalendarInfo" in unparse(t_.fn.returns):
-            pin_fns.add(t_.fn.fq)
-    ctx.require(len(pin_fns) == 1, f"v1 incr: function that turns the parsed version into its calendar not identified ({sorted(pin_fns)})")
-    vc = prog.function(pin_fns.pop())
+    pin = shapes.pinned_calendar_ctor(prog, inc1, "V1CalendarInfo")
+    ctx.require(pin is not None, "v1 incr: the place where the parsed calendar is rebuilt for --pin-date was not found")
+    vc, ctor0, pin_src = pin
     ctx.visit(vc.fq)
-    ctor = [c for c in ast.walk(vc.node) if isinstance(c, ast.Call) and unparse(c.func).endswith("V1CalendarInfo")]
-    ctx.require(len(ctor) == 1, "v1 _ver_to_cal_info: V1CalendarInfo constructor not found")
+    ctor = [ctor0]
     cal_fields = prog.klass("version.V1CalendarInfo").fields
     args = dict(zip(cal_fields, ctor[0].args))
     args.update(shapes.kwargs_of(ctor[0]))
     ctx.floor("R1", "calendar fields carried over by v1 _ver_to_cal_info", len(args), 7)
     for f in cal_fields:
         e = args.get(f)
-        ctx.check("R1", e is not None and unparse(e) == f"{vc.params[0]}.{f}", f"v1 _ver_to_cal_info: {f} := parsed {f}",
+        ctx.check("R1", e is not None and unparse(e) == f"{pin_src}.{f}", f"v1 _ver_to_cal_info: {f} := parsed {f}",
                   f"v1version._ver_to_cal_info: calendar field '{f}' is filled from another field (--pin-date renders a different date)",
                   f"{f} = {unparse(e) if e is not None else None}", loc=vc.loc(ctor[0]), witness={"version": "v2021.03.09.0001", "flag": "--pin-date"})
     ci = prog.klass("version.V1VersionInfo").fields
